@@ -111,14 +111,13 @@ def operandKey (v : Vec S) (n : Nat) : Option (List KA × List S) :=
   | _, _, _ => none
 
 /-- number of key slots of each vector operand, from the module's key shape -/
-def operandSlots (shape : List String) : List Nat :=
-  let rec go (s : List String) (cur : Nat) (acc : List Nat) : List Nat :=
-    match s with
-    | [] => if cur > 0 then acc ++ [cur] else acc
-    | "az" :: r => go r 1 (if cur > 0 then acc ++ [cur] else acc)
-    | "ord" :: r => go r cur acc
-    | _ :: r => go r (cur + 1) acc
-  go shape 0 []
+def operandSlotsGo (s : List KS) (cur : Nat) (acc : List Nat) : List Nat :=
+  match s with
+  | [] => if cur > 0 then acc ++ [cur] else acc
+  | .az :: r => operandSlotsGo r 1 (if cur > 0 then acc ++ [cur] else acc)
+  | .ord :: r => operandSlotsGo r cur acc
+  | _ :: r => operandSlotsGo r (cur + 1) acc
+def operandSlots (shape : List KS) : List Nat := operandSlotsGo shape 0 []
 
 /-- handler = operand of highest backend priority (first wins ties) -/
 def handlerOf (vs : List (Vec S)) : Option (Vec S) :=
